@@ -27,6 +27,16 @@ CHECKS = {
             'Trusted: vlib/sched.py; statement-line granularity (races inside one line or inside C / '
             'third-party code are invisible); CPython 3.12 GIL semantics.',
             'DESIGN.md section 4, C18'),
+    'C15': ('exploration',
+            'runtime monitor: stage-trace wrappers on every DT_Var modifier / special format + output; '
+            'oracle = independent pipeline model, order/round-trip/truncation laws, sql_quote postcondition',
+            'The real dtml-var is rendered for all 4096 modifier subsets, all written orders of small subsets, '
+            'fmt / C-format / size x etc / null / missing grids and seeded random option sets over str, bytes, '
+            'numbers, None, empty containers and objects; each stage application is logged by wrappers and the '
+            'output compared with an independent model of the documented pipeline.',
+            'Trusted: vlib/c15_util.py pipeline model (from the DT_Var docstring and the statement); html_quote '
+            'exactness is C03\'s; thousands_commas judged on numeric text only.',
+            'DESIGN.md section 4, C15'),
 }
 
 NOT_YET = {}
